@@ -422,6 +422,10 @@ Proof.
     + intros a b t H. discriminate H.
 Qed.
 
+(* a|b : the bar is escaped *)
+Example pipe_is_literal : compile_pattern_str [97; 124; 98] = [97; 92; 124; 98].
+Proof. vm_compute. reflexivity. Qed.
+
 (* ------------------------------------------------------------------ known holes (refutation witnesses) *)
 (* x^y : the caret is neither escaped nor rejected; it becomes an anchor in the middle, and the
    compiled pattern cannot even find its own text *)
@@ -448,5 +452,6 @@ Print Assumptions plain_compile_pattern_re.
 Print Assumptions first_match_lit.
 Print Assumptions search_span_lit.
 Print Assumptions literal_search_iff_contains.
+Print Assumptions pipe_is_literal.
 Print Assumptions caret_mid_is_anchor.
 Print Assumptions backslash_d_is_class.
